@@ -5,6 +5,9 @@ mod vclock;
 mod m_c11;
 mod m_c12;
 mod m_c13;
+mod m_c14;
+mod m_c04pkt;
+mod pkt;
 mod m_c20;
 mod m_run;
 mod m_state;
@@ -62,6 +65,8 @@ fn main() {
     match mode.as_str() {
         "c13" => m_c13::run(&args, &mut out),
         "c12" => m_c12::run(&args, &mut out),
+        "c14" => m_c14::run(&args, &mut out),
+        "c04pkt" => m_c04pkt::run(&args, &mut out),
         "c11" => m_c11::run(&args, &mut out),
         "run" => m_run::run(&args, &mut out),
         "state" => m_state::run(&args, &mut out),
